@@ -131,6 +131,13 @@ CLAIMED = {
         note=TB + "; trig/sqrt via algebraic defining axioms; euler gimbal band 0<cy<=_EPS excluded; eig/svd-based functions not under contract.",
         technique="contract-based deductive verification: symbolic execution of the unmodified source, VCs discharged by z3/cvc5 (QF_NRA)",
     ),
+    "C20": dict(
+        category="proof",
+        text="What contracts decide here is control flow around the parsers, not time or memory. (a) open/close typestate: load_scene, load_mesh, load and load_path are run with `open` replaced by a handle-tracking ghost and every registered loader replaced by a havoc stub (returns / ValueError / custom exception / KeyError / MemoryError) for every file-type category (mesh stl, ply, glb; path dxf, svg; archive; voxel; unsupported), by path and by caller's file object: on every path every handle the loader opened is closed when the call leaves, the caller's object is never closed, only ordinary exceptions escape (274 obligations). (b) the while loops of the loader modules are exactly the contracted ones, each with a stated variant (AST inventory: a new loop is a failed obligation); the two loops that read from the file (PLY header scan, GLB chunk scan) leave within one iteration at end-of-file for every enumerated prefix of header lines (9-line alphabet, length <= 2, 3 thorough) / chunk records. (c) binary STL accepts a header count only if count*50 equals the bytes that follow, at the 32-bit limits (the wrap-around accepted before the repair), so no allocation is sized by an unvalidated field. Bounded: one small exported file per format (15 formats): every truncation point of short files / 60 cuts otherwise, seeded single-byte corruptions, blown-up 32-bit fields, by file object and by path, with a 10 s per-case limit under a 6 GiB address-space limit: returns or raises an ordinary exception, no handle left open. Two defects found this way were repaired.",
+        design_ref="DESIGN.md §4 C20",
+        note="the obligations are discharged by ghost execution of the real entry points with havoc stubs (finite case enumeration, complete for the modelled outcome classes), not by a solver; parsers, zip/tar/xml/json libraries and numpy are external; wall-clock and memory proportionality and interpreter crashes are outside what contracts on the Python express and are only sampled in the bounded tier.",
+        technique="contract-based verification of typestate and termination obligations by ghost execution of the real loader entry points (havoc stubs for the parsers, ghost files), AST loop inventory + bounded truncation / corruption enumeration with limits",
+    ),
 }
 REASON_PENDING = "no check registered yet in this commit (framework under construction; see DESIGN.md §6 for the build order)"
 ALL = ["C%02d" % i for i in range(1, 21)]
